@@ -3,12 +3,12 @@
 (* JSON line; the harness realises each as real blocks and runs the real exchange.         *)
 EXTENDS Exchange, Json
 CaseNext == UNCHANGED vars
-EmitCase == PrintT(ToJson([n |-> N, par |-> par, dep |-> dep, cid |-> cid, sl |-> SetToSeq(Sl0), sr |-> SetToSeq(Sr), userSkip |-> userSkip, ignore |-> SetToSeq(ignore), keyed |-> keyed]))
+EmitCase == PrintT(ToJson([n |-> N, par |-> par, dep |-> dep, cid |-> cid, sl |-> SetToSeq(Sl0), sr |-> SetToSeq(Sr), userSkip |-> userSkip, ignore |-> SetToSeq(ignore), keyed |-> keyed, adv |-> adv, script |-> script]))
 \* C07: every budget 1..N+2 at every place a budget can be configured
 Placements == {"reqG", "reqH", "reqGH", "reqHG", "respG", "respH", "respGH", "respHG"}
 EmitBudgetCases == \A b \in 1..(N+2), w \in Placements :
   PrintT(ToJson([n |-> N, par |-> par, dep |-> dep, cid |-> cid, sl |-> SetToSeq(Sl0), sr |-> SetToSeq(Sr), userSkip |-> 0,
-                 ignore |-> <<>>, keyed |-> FALSE, budget |-> b, where |-> w]))
+                 ignore |-> <<>>, keyed |-> FALSE, adv |-> FALSE, script |-> <<>>, budget |-> b, where |-> w]))
 \* budget cases: plain link depths, requestor empty or full, responder full or lacking one block
 BudgetInit ==
   /\ EnumInit
